@@ -9,3 +9,4 @@ import PolyVerif.Props.C08
 import PolyVerif.Props.C19
 import PolyVerif.Props.C06
 import PolyVerif.Props.C07
+import PolyVerif.Props.C15
